@@ -167,8 +167,10 @@ def r2(ctx: Ctx) -> None:
                 got.add((it0, it1))
             elif comp[2][0] == ("s", ("s", m, b1), b0) and c0 == K_TRUE and c1 == K_TRUE:
                 got.add((it1, it0))
-    rets = [st for st in cg if st[0] == "ret"]
-    neg_ok = len(rets) == 1 and (rets[0][1][0] == "and" and all(x[0] == "not" for x in rets[0][1][1]) and len(rets[0][1][1]) == 4)
+    # the answer as one expression (a single return, or guards that return False as soon as one quadrant has a cell)
+    from framelint.peval import value_expr
+    val = value_expr(cg)
+    neg_ok = val is not None and val[0] == "and" and all(x[0] == "not" for x in val[1]) and len(val[1]) == 4
     if got != want or not neg_ok:
         ctx.report(g.where, f"corner-quadrants {len(got & want)}/4 negated={neg_ok}", "_empty_corners does not test exactly the four quadrants "
                    "(rows < low | rows > high) x (columns < low | columns > high) for emptiness", lineno=g.node.lineno)
